@@ -2581,6 +2581,8 @@ task update from user %d for task from user %d failed: permission denied",
 		free(deconst(res->dflt_cred.wd));
 		free(deconst(res->dflt_cred.sh));
 		free_echs_task(res->t);
+		/* the new task hasn't been run yet */
+		res->nrun = 0U;
 	} else if (UNLIKELY((res = make_task(t->oid)) == NULL)) {
 		ECHS_ERR_LOG("cannot submit new task");
 		return -1;
